@@ -644,3 +644,88 @@ def ttrs_unit():
 TTRS_UNIT = ttrs_unit()
 UNITS_C14.append(TTRS_UNIT)
 UNITS.append(TTRS_UNIT)
+
+
+# ------------------------------------------------------------------------------------------------ C14: from_thread.run hop
+# A tokenless call is a reentrant call from a to_thread worker: hidden, nothing inward of it shown here (the Trio side shows it).
+# With a token: the stack continues into the coroutine of a system task of THE runner owning that token, and that task is the
+# one serving this very message (its context is the message's, or its coroutine is message.run_system()).
+FTR = G + "glue_trio.elaborate_from_thread_run"
+register_class("Runner")
+register_class("task")
+items_key2 = Function("items_key", Val, IntSort(), Val)
+
+
+def ftr_setup(ex, p):
+    frame = sym_ref(p, "frame", "Frame")
+    nxt = sym_any(p, "next_inner")
+    pyf = p.getf(frame.t, "pyframe")
+    fl = p.getf(pyf, "f_locals")
+    p.pc += [is_kind(pyf, "frame"), Val.a(pyf) >= 0, is_exact_kind(fl, "dict"), Val.a(fl) >= 0]
+    refs = sym_seq(p, "referents", "list")
+    p.pc.append(p.lo(refs.t) == 0)
+    def get_referents(ex_, p_, a, k, n):
+        return [("ok", p_, SV(refs.t, ty="list"))]
+    def items(ex_, p_, args, kw, node):
+        d = args[0]
+        n = fresh_int("n_items")
+        p_.pc.append(n >= 0)
+        H0 = p_.snap()
+        def elem(pth, k):
+            key = items_key2(d.t, k)
+            return ex_.make_tuple(pth, [SV(key), SV(pth.dget(d.t, key, H0))])
+        return [("ok", p_, SV(fresh("items"), special=("custom", n, elem)))]
+    ex.unit.bindings["gc.get_referents"] = get_referents
+    ex.unit.bindings["trio._core._run.GLOBAL_RUN_CONTEXT"] = sym_any(p, "GLOBAL_RUN_CONTEXT")
+    ex.unit.methods[("dict", "items")] = items
+    p.env.update(frame=frame, next_inner=nxt)
+    ex.unit_args = dict(frame=frame, next_inner=nxt, fl=fl, H0=p.snap())
+    return ex.unit_args
+
+
+def ftr_post(ctx):
+    a = ctx.args
+    H0, H = a["H0"], ctx.H
+    r = ctx.result.t
+    const = lambda s_: ctx.ex.const(ctx.p, s_).t
+    fl = a["fl"]
+    tok = If(H0.dhas(fl, const("trio_token")), H0.dget(fl, const("trio_token")), NONE)
+    tp = If(H0.dhas(fl, const("token_provided")), H0.dget(fl, const("token_provided")), NONE)
+    provided = If(Val.is_none(tp), Not(Val.is_none(tok)), ctx.ex.truthy(ctx.p, SV(tp)))
+    has_token_local = H0.dhas(fl, const("trio_token"))
+    runner, task = ctx.env.get("runner"), ctx.env.get("task")
+    msg = ctx.env.get("message")
+    hidden = H.getf(a["frame"].t, "hide") == mkbool(True)
+    is_empty_tuple = And(is_exact_kind(r, "tuple"), H.length(r) == 0)
+    cases = [Implies(Not(has_token_local), Val.is_none(r)),
+             Implies(And(has_token_local, Not(provided)), And(is_empty_tuple, hidden))]
+    if runner is not None and task is not None and msg is not None:
+        T, R, M = task.t, runner.t, msg.t
+        tf = H0.getf(H0.getf(T, "coro"), "cr_frame")
+        serves = Or(H0.getf(T, "context") == H0.getf(M, "context"),
+                    And(Not(Val.is_none(tf)), H0.dhas(H0.getf(tf, "f_locals"), const("self")), H0.dget(H0.getf(tf, "f_locals"), const("self")) == M))
+        cases.append(Implies(And(has_token_local, provided, Not(Val.is_none(r))),
+                             And(r == H0.getf(T, "coro"), H0.getf(R, "trio_token") == tok, serves, hidden, Not(Val.is_none(M)))))
+    else:
+        cases.append(Implies(And(has_token_local, provided), Val.is_none(r)))
+    return And(cases)
+
+
+def ftr_unit():
+    true_inv = lambda name, hdr: Inv(name, qf=lambda ctx: BoolVal(True), header=hdr, fields=[("hide", lambda p_: p_.env["frame"].t)])
+    return Unit("C14.elaborate_from_thread_run", FTR, ftr_setup,
+                post=[Clause("C14.from_thread.continues_into_the_system_task_serving_this_call", ftr_post)],
+                bindings=dict(EXTRACT_BINDINGS), methods=dict(STD_METHODS), ctors=dict(CTORS), known_classes=KNOWN,
+                invariants={(FTR, "for#1"): true_inv("C14.from_thread.referents_scan", "gc.get_referents"),
+                            (FTR, "for#2"): true_inv("C14.from_thread.dict_scan", "ref.items()"),
+                            (FTR, "for#3"): true_inv("C14.from_thread.system_tasks_scan", "child_tasks")},
+                field_types={"f_locals": "dict"}, options=dict(iter_any_seq=True),
+                allowed_raise=lambda ctx: is_kind(ctx.exc.t, "AttributeError"),
+                assumptions=["gc.get_referents returns a list; Trio's thread-local run context is reachable as documented in the source comments "
+                             "(which dict holds the runner is interpreter behaviour, decided by the bounded leg)",
+                             "attribute reads on Trio objects (trio_token, system_nursery, child_tasks, context, coro) may raise AttributeError only"])
+
+
+FTR_UNIT = ftr_unit()
+UNITS_C14.append(FTR_UNIT)
+UNITS.append(FTR_UNIT)
